@@ -66,6 +66,7 @@ type Contract struct {
 	Canaries []*Clause
 	Invs     []*Clause
 	Asserts  []*Clause
+	Allocs   []string // names of fresh object ids the callee may allocate (usable in ensures / modifies)
 	Mods     []Modifies
 	Lets     []LetDef
 	Trusted  bool
@@ -271,6 +272,11 @@ func (cs *ContractSet) loadFile(path string, ext bool) error {
 				return fmt.Errorf("%s:%d: %v", path, lineNo, err)
 			}
 			cur.Mods = append(cur.Mods, md)
+			lastText = nil
+		case strings.HasPrefix(body, "allocates "):
+			for _, n := range strings.Fields(body[len("allocates "):]) {
+				cur.Allocs = append(cur.Allocs, strings.Trim(n, ","))
+			}
 			lastText = nil
 		case strings.HasPrefix(body, "let "):
 			rest := strings.TrimSpace(body[4:])
